@@ -8,6 +8,7 @@ package abandon
 import (
 	"fmt"
 	"reflect"
+	"strings"
 	"runtime"
 	"runtime/metrics"
 
@@ -91,6 +92,7 @@ type prefixResult struct {
 	intact    bool
 	u         *gotype.Unfolder
 	setErr    error
+	value     func() interface{}
 }
 
 // unfolderVariant is the user-unfolder configuration of the current run (set by
@@ -99,7 +101,8 @@ var unfolderVariant int
 
 func deliverPrefix(te *model.TypeEntry, preset interface{}, evs []simkit.Ev, k int, byRef bool, measure func() uint64, x *simkit.Ctx) *prefixResult {
 	r := &prefixResult{intact: true}
-	ptr, intact, _ := te.NewTarget()
+	ptr, intact, value := te.NewTarget()
+	r.value = value
 	if preset != nil {
 		te.Set(ptr, model.DeepCopy(preset))
 	}
@@ -137,8 +140,16 @@ func (Engine) Run(c *simkit.Choices, x *simkit.Ctx) *simkit.Violation {
 	te := pickType(c, c.N(20) == 0)
 	if unfolderVariant != 0 && c.Bool() {
 		te = model.TypeByName([]string{"Score", "[]Score", "map[string]Score", "Scored"}[c.N(4)])
+		if c.N(3) == 0 {
+			te = &model.TreeEntry // nested activations of one user unfolder
+		}
 	}
 	evs, src := genStream(c, x, te)
+	var treeSrc *model.Tree
+	if te == &model.TreeEntry {
+		tr := model.GenTree(c, 0)
+		treeSrc, evs, src = &tr, model.TreeEvents(tr), "tree-events"
+	}
 	if unfolderVariant != 0 {
 		src += fmt.Sprintf("+user-unfolders-v%d", unfolderVariant)
 	}
@@ -149,6 +160,7 @@ func (Engine) Run(c *simkit.Choices, x *simkit.Ctx) *simkit.Violation {
 		// shape mismatches at any depth: subtrees replaced, members rotated
 		evs = model.MutateStream(c, evs, 1+c.N(3))
 		src += "+mutated"
+		treeSrc = nil
 	}
 	// a re-used target: pre-populated with a value of its type (non-nil
 	// slices, maps and pointers) in a third of the runs
@@ -174,6 +186,9 @@ func (Engine) Run(c *simkit.Choices, x *simkit.Ctx) *simkit.Violation {
 	pte := pickType(c, false)
 	if c.N(3) == 0 && te.Supported && !te.FoldOnly {
 		pte = te // the same type again after the restart: cached unfolders
+	}
+	if unfolderVariant != 0 && c.N(6) == 0 {
+		pte = &model.TreeEntry
 	}
 	probeVal := pte.Gen(c)
 	probe := reuse.RecordFold(probeVal)
@@ -268,6 +283,21 @@ func (Engine) Run(c *simkit.Choices, x *simkit.Ctx) *simkit.Violation {
 			}
 			st.Probe("alloc-counter-noise-filtered")
 		}
+		if treeSrc != nil && k == len(evs) && len(sc.Announced) == 0 && preset == nil {
+			// ground truth for the self-nesting user unfolder: every node's V + 1000
+			want := model.TreeExpected(*treeSrc)
+			if r.err != nil || !model.DeepEq(want, r.value()) {
+				return &simkit.Violation{Kind: "value-corrupted", Site: "Tree/nested-user-unfolder",
+					Detail: fmt.Sprintf("a matching document for a type whose user-defined processing unfolder nests: want %s, got %s (err %v)", model.Render(want), model.Render(r.value()), r.err), Scenario: sc}
+			}
+			st.Probe("nested-user-unfolder-exact")
+		}
+		if r.err == nil && k == len(evs) && preset != nil && plainStruct[te.Name] {
+			if why := untouchedFieldsChanged(preset, r.value(), stream); why != "" {
+				return &simkit.Violation{Kind: "memory-corrupted", Site: site + "/sibling-field",
+					Detail: "a complete document was unfolded without error into a pre-populated struct, but a field the document does not mention changed: " + why, Scenario: sc}
+			}
+		}
 		if r.err != nil {
 			st.Probe("abandoned-after-error")
 		} else if k < len(evs) {
@@ -313,6 +343,52 @@ func (Engine) Run(c *simkit.Choices, x *simkit.Ctx) *simkit.Violation {
 	}
 	st.Sample(map[string]interface{}{"target": te.Name, "stream": src, "events": len(evs), "abandon_points": len(ks), "probe_type": pte.Name})
 	return nil
+}
+
+// plainStruct lists the catalogue structs that are unfolded field by field
+// under the plain naming rule (no tags, no user-defined unfolding).
+var plainStruct = map[string]bool{"Inner": true, "Simple": true, "Wide": true, "PackedU8": true, "PackedI8": true, "PackedBool": true,
+	"PackedU16": true, "PackedI16": true, "PackedU32": true, "PackedI32": true, "PackedF32": true, "PackedMix": true}
+
+// untouchedFieldsChanged compares, for plain struct targets (no tags), every
+// field whose lower-cased name is not a top-level key of the stream between
+// the pre-populated value and the result.
+func untouchedFieldsChanged(before, after interface{}, evs []simkit.Ev) string {
+	bv, av := reflect.ValueOf(before), reflect.ValueOf(after)
+	if bv.Kind() != reflect.Struct || av.Type() != bv.Type() || len(evs) == 0 || evs[0].K != simkit.KObjStart {
+		return ""
+	}
+	mentioned := map[string]bool{}
+	depth := 0
+	for _, e := range evs {
+		switch e.K {
+		case simkit.KObjStart, simkit.KArrStart:
+			depth++
+		case simkit.KObjEnd, simkit.KArrEnd:
+			depth--
+		case simkit.KKey:
+			if depth == 1 {
+				mentioned[e.S] = true
+			}
+		}
+	}
+	t := bv.Type()
+	for i := 0; i < t.NumField(); i++ {
+		f := t.Field(i)
+		if f.PkgPath != "" || f.Tag != "" {
+			return "" // tagged structs: the name mapping is not the plain one
+		}
+	}
+	for i := 0; i < t.NumField(); i++ {
+		f := t.Field(i)
+		if mentioned[strings.ToLower(f.Name)] {
+			continue
+		}
+		if !model.DeepEq(bv.Field(i).Interface(), av.Field(i).Interface()) {
+			return fmt.Sprintf("field %s was %s, is %s", f.Name, model.Render(bv.Field(i).Interface()), model.Render(av.Field(i).Interface()))
+		}
+	}
+	return ""
 }
 
 func deliverAll(u *gotype.Unfolder, evs []simkit.Ev, byRef bool) error {
